@@ -141,7 +141,7 @@ class _FixedChoice:
         registry.random.choice, registry.np.random.binomial = self.saved
 
 
-def run_kernel(name, timeout_ms=300000):
+def run_kernel(name, timeout_ms=300000, cross=False):
     """Returns dict(answer, counterexample, report).  answer in
     {'holds', 'violated', 'cannot-encode', 'undecided'}."""
     spec = KERNELS[name]
@@ -160,6 +160,15 @@ def run_kernel(name, timeout_ms=300000):
                          for r in res['results']],
                   logic='bit-vectors 64 + FloatingPoint 11 53, z3 4.8.12')
     answers = [r['answer'] for r in res['results']]
+    if cross:
+        report['crosscheck'] = K.crosscheck(
+            lambda: K.Translator(func, spec['sorts']), spec['assume'],
+            spec['prop'], answers)
+        for sv, v in report['crosscheck'].items():
+            if isinstance(v, dict) and not v['agree'] and \
+                    'unknown' not in v['answers'] and v['answers']:
+                raise HarnessError('kernel %s: %s disagrees with z3: %s vs %s'
+                                   % (name, sv, v['answers'], answers))
     if 'unknown' in answers:
         report['answer'] = 'undecided'
         return dict(answer='undecided', report=report, cex=None)
